@@ -28,6 +28,7 @@ type Replica struct {
 	A        *sim.Att
 	Inflight *sim.Inflight
 	Lost     *sim.Inflight // a request whose response was lost; retried later by "Rt"
+	Parked   *parkedSync   // a sync the server is holding at one of its storage calls (Sq ... Sw)
 }
 
 // Runner executes histories on one server.
@@ -61,6 +62,11 @@ type Run struct {
 }
 
 var errInjected = errors.New("injected updater failure")
+
+type parkedSync struct {
+	done    chan *sim.Inflight
+	release func()
+}
 
 func mod(i, n int) int {
 	if n <= 0 {
@@ -460,6 +466,13 @@ func (r *Run) Exec(ctx context.Context, idx int, st *Step) (obs StepObs) {
 			}
 		}
 	}()
+	if st.C >= 0 && st.C < len(r.R) && r.R[st.C].Parked != nil {
+		switch st.Op {
+		case "Sw", "U", "Z", "Y": // the client can go on editing while its request is held
+		default:
+			return StepObs{Skipped: true}
+		}
+	}
 	return r.exec(ctx, idx, st)
 }
 
@@ -679,6 +692,50 @@ func (r *Run) exec(ctx context.Context, idx int, st *Step) StepObs {
 		}
 		r.Trace[len(r.Trace)-1].Lost = true
 		rp.Lost = f
+	case "Sq": // the server parks this sync at one of its storage calls; other clients go on; Sw lets it finish
+		if !attached || rp.Inflight != nil || rp.Lost != nil || rp.Parked != nil || r.Stale[st.C] {
+			obs.Skipped = true
+			return obs
+		}
+		pb, perr := converter.ToChangePack(rp.A.Doc.CreateChangePack())
+		if perr != nil {
+			err = perr
+			break
+		}
+		r.S.Be.WaitBackgroundIdleForVerif()
+		reached, release := r.S.InstallFaultDB().ParkAt(st.Park)
+		done := make(chan *sim.Inflight, 1)
+		a := rp.A
+		go func() { done <- a.Resend(ctx, pb, false) }()
+		r.Concurrent = true
+		select {
+		case <-reached:
+			rp.Parked = &parkedSync{done: done, release: release}
+		case f := <-done: // the request never got to that call
+			release()
+			rp.Inflight = f
+			if f.Err != nil {
+				err = f.Err
+				rp.Inflight = nil
+			}
+		case <-gotime.After(10 * gotime.Second):
+			release()
+			err = errors.New("harness: parked sync neither reached its call nor finished")
+		}
+	case "Sw": // the parked sync is released and its response applied
+		if rp.Parked == nil {
+			obs.Skipped = true
+			return obs
+		}
+		rp.Parked.release()
+		select {
+		case f := <-rp.Parked.done:
+			rp.Parked = nil
+			err = f.Apply()
+		case <-gotime.After(10 * gotime.Second):
+			rp.Parked = nil
+			err = errors.New("harness: released sync did not finish")
+		}
 	case "Sx": // a storage call fails while the server handles this sync; the client gets an error and retries later (Rt)
 		if !attached || rp.Inflight != nil || rp.Lost != nil || r.Stale[st.C] {
 			obs.Skipped = true
@@ -925,6 +982,11 @@ func (rn *Runner) RunFull(ctx context.Context, h *History) (*Run, *Outcome) {
 func (r *Run) Finish(ctx context.Context) {
 	n := len(r.H.Steps)
 	for i, rp := range r.R {
+		if rp.Parked != nil {
+			if o := r.Exec(ctx, n, &Step{Op: "Sw", C: i}); o.Err != "" {
+				r.problem("sync-error", n, "client %d (released sync): %s", i, o.Err)
+			}
+		}
 		if rp.Lost != nil {
 			if o := r.Exec(ctx, n, &Step{Op: "Rt", C: i}); o.Err != "" {
 				r.problem("sync-error", n, "client %d (retry of a lost request): %s", i, o.Err)
